@@ -517,7 +517,8 @@ pub fn c07_packet(c: &mut Ctx, r: &mut Rng, fam: Fam, rp: &RP, case: &Case) {
         match guard(|| dec_async_bytes(fam, &s)) {
             Ok((Drive::Done(Ok(p)), pos)) if p == lib => {
                 if pos != enc.len() {
-                    c.violation(format!("C07:v{}:{}:suffix:async-consumed", f, t), format!("async decoder consumed {} bytes of a {}-byte encoding", pos, enc.len()), xcase());
+                    // how much was consumed is C08's subject; C07 only demands the same packet
+                    c.count("observed.suffix-async-consumed-differs");
                 }
             }
             Ok((d, _)) => c.violation(format!("C07:v{}:{}:suffix:async", f, t), format!("async decoder returned {} when bytes follow the encoding", fmt_drive(&d)), xcase()),
